@@ -79,3 +79,9 @@ Theorem C06_extended_rows_symmetric : forall fg rs ps lw b, In (lw, b) (extended
     symmetric_bpseq b /\ map (fun e => fst e) b = map (fun x => fst x) (numbering fg rs).
 Proof. exact extended_rows_symmetric. Qed.
 Print Assumptions C06_extended_rows_symmetric.
+
+(* the strand sequences, concatenated, are the letters of the numbering, placeholders included *)
+From RV Require Import Proofs.C06Strands.
+Theorem C06_strands_concat : forall fg rs, concat (map snd (strands fg rs)) = letters (numbering fg rs).
+Proof. exact strands_concat. Qed.
+Print Assumptions C06_strands_concat.
